@@ -79,6 +79,7 @@ func newModWorld(h *History) (*modWorld, error) {
 	case "gclatest": // both options: the same trie mode as gc
 		w.cfg.Ledger.RemoveUntraceableBlocks = true
 		w.cfg.Ledger.KeepOnlyLatestState = true
+	case "all": // archival node: every state kept, no reference counters (what the stored roots commit to is still judged)
 	default:
 		return nil, fmt.Errorf("unknown mode %q", h.Mode)
 	}
@@ -106,6 +107,9 @@ func newModWorld(h *History) (*modWorld, error) {
 	w.tmode = mpt.ModeLatest
 	if h.Mode != "latest" {
 		w.tmode = mpt.ModeGC
+	}
+	if h.Mode == "all" {
+		w.tmode = mpt.ModeAll
 	}
 	if h.API == "trie" {
 		w.trie = mpt.NewTrie(nil, w.tmode, w.top)
@@ -174,7 +178,10 @@ func (w *modWorld) reads() []any {
 
 // observe completes an event with the table delta, the current pointers and the read probes.
 func (w *modWorld) observe(ev map[string]any) map[string]any {
-	cur := dumpTable(w.top)
+	cur := map[string]entry{}
+	if w.hist.Mode != "all" { // the archival table has no counters: only the read API is observed there
+		cur = dumpTable(w.top)
+	}
 	put, del := diffTable(w.prev, cur)
 	w.prev = cur
 	ev["put"], ev["del"] = put, del
@@ -209,7 +216,9 @@ func runModule(res *vh.Result, tr *vh.Trace, src string, h *History) bool {
 			case "block":
 				ev = w.block(st)
 			case "gc":
-				w.mod.GC(uint32(st.G), w.ps)
+				if h.Mode != "all" {
+					w.mod.GC(uint32(st.G), w.ps)
+				}
 				ev = map[string]any{"event": "gc", "g": st.G}
 			case "persist":
 				if _, err := w.top.Persist(); err != nil {
